@@ -12,7 +12,7 @@ CFG = {
     "rule": ("each seed draws chunk size (1 byte .. > part), 1-3 parts with 1-3 part types and 1-5 files of boundary sizes (0,1,chunk-1,chunk,chunk+1,2*chunk..), receiver ordering knobs, "
              "and 0-2 wire faults at tape-chosen message positions; lockstep scenario = real sender+receiver, pipelined scenario = recorded real request sequence replayed with "
              "reorder/dup/drop/flip/early end. Non-trivial = at least one fault fired; distinct = distinct canonical event-log digests"),
-    "expected_probes": ["fault.req.flip-data", "fault.req.dup", "fault.req.drop", "fault.req.cut", "fault.resp.drop", "fault.reorder_delay", "fault.early_stream_end",
+    "expected_probes": ["fault.short_reads_of_part_files", "fault.req.flip-data", "fault.req.dup", "fault.req.drop", "fault.req.cut", "fault.resp.drop", "fault.reorder_delay", "fault.early_stream_end",
                         "reach.session_failed_cleanly", "reach.faulted_session_still_succeeded"],
     "real_vs_stub": {
         "real": ["banyand/queue/pub chunkedSyncClient (SyncStreamingParts, chunking, retries)", "banyand/queue/sub server.SyncPart (sessions, reorder buffer, checksum, completion)"],
